@@ -94,13 +94,14 @@ class C25(Check):
             "connect, send, recv, handshake, sendto, recvfrom) x (occurrence 0..2) x (every errno of the connection-loss "
             "set, TLS EOF, would-block, a sample of unrelated errnos) x (direct call / service loop); the seed varies "
             "message sizes, pipe size and the traffic that precedes the fault; every case is non-trivial (a fault fires "
-            "in it); for the datagram stack also two transient errors in a row on sendto / recvfrom; distinct = distinct (case, abstract result)")
+            "in it); for the datagram stack also two transient errors in a row on sendto / recvfrom; the console verbosity "
+            "(mute / concise / profuse) is drawn per run and the socket double answers getpeername() with ENOTCONN once it has reported a loss; distinct = distinct (case, abstract result)")
     components = {"real": ["ioflo.aio.tcp.clienting.Client/ClientTls", "ioflo.aio.tcp.serving.Server/ServerTls/Incomer/IncomerTls",
                            "ioflo.aio.udp.udping.SocketUdpNb", "ioflo.aio.proto.stacking.UdpStack (GramStack tx/rx service)"],
                   "stub": ["socket module", "TLS record layer / handshake (stub)", "far end", "packets (pre-packed bytes)"]}
     assumptions = ["errors are injected at the socket API; which errnos a real kernel produces where is not modelled",
                    "connect errors are injected as connect_ex result codes (connect_ex does not raise them)"]
-    required_probes = ["loss", "block", "other", "handshake", "connect", "stack", "udp-once-variant"]
+    required_probes = ["loss", "block", "other", "handshake", "connect", "stack", "udp-once-variant", "console-verbosity-4"]
     quick_runs = len(CASES) * 3
     thorough_runs = len(CASES) * 200
     shrink_fields = ["pre"]
@@ -113,7 +114,9 @@ class C25(Check):
         case = dict(CASES[index % len(CASES)])
         return {"case": case, "cap": g.choice([4, 16, 64]), "bs": g.choice([2, 8, 64]), "maxrec": g.choice([2, 8, 64]),
                 "msglen": g.choice([1, 3, 9]), "pre": [g.choice(["tx", "rx", "dl", "ps"]) for _ in range(g.randint(0, 4))],
-                "udp_once": g.random() < 0.5}
+                "udp_once": g.random() < 0.5,
+                # console verbosity: the diagnostic branches next to the error handling are real code as well
+                "verb": g.choice([0, 2, 4])}
 
     # ------------------------------------------------------------------
     def execute(self, plan):
@@ -128,7 +131,9 @@ class C25(Check):
             faults.append([c["site"], c["occ"] + 1, c["kind"], c["arg2"]])
             label += "+" + EN.get(c["arg2"], str(c["arg2"]))
             out.probe("two-transient-errors-in-a-row")
-        with world(faults=faults, out=out, cap=plan["cap"], trace=tr) as net:
+        if plan.get("verb"):
+            out.probe("console-verbosity-%d" % plan["verb"])
+        with world(faults=faults, out=out, cap=plan["cap"], trace=tr, verbosity=plan.get("verb", 0)) as net:
             if c["drive"] == "stack":
                 self._udp(plan, c, net, out, tr, label, res)
             elif c["drive"] == "handshake":
